@@ -92,7 +92,7 @@ fn into_zalsa(w: World) -> (Zalsa, IngredientImpl<VIn>, Id) {
     (z, w.ing, w.id)
 }
 
-// @verif prop=C02,C01,C03 obl=O2 tier=quick bounds="arbitrary INV runtime state (< 2^40) followed by one new revision; one page-backed input with 2 fields; symbolic old durability (LOW/MEDIUM/HIGH), other field's durability (any), optional new durability (any of 4), symbolic new value; previous field revisions R1"
+// @verif prop=C02,C01,C03 obl=O2 tier=thorough bounds="arbitrary INV runtime state (< 2^40) followed by one new revision; one page-backed input with 2 fields; symbolic old durability (LOW/MEDIUM/HIGH), other field's durability (any), optional new durability (any of 4), symbolic new value; previous field revisions R1"
 // @+ encodes="input::IngredientImpl::<VIn>::set_field, IngredientImpl::data_raw, Table::get_raw, Table::get, Table::push_page, PageView::allocate, Page::new, split_id, make_id, Runtime::report_tracked_write, Runtime::new_revision, Runtime::last_changed_revision"
 /// C02-O2: the setter reports the field's *old* durability to the runtime (so everything <= old is marked changed now),
 /// installs the requested durability (or keeps the old one), stamps the field with the current revision and
@@ -137,7 +137,7 @@ fn c02_o2_set_field() {
     std::mem::forget(w);
 }
 
-// @verif prop=C01,C03 obl=O3 tier=quick bounds="as c02_o2_set_field; queried revision symbolic in [1, now]"
+// @verif prop=C01,C03 obl=O3 tier=thorough bounds="as c02_o2_set_field; queried revision symbolic in [1, now]"
 // @+ encodes="input::IngredientImpl::<VIn>::set_field, input_field::FieldIngredientImpl::<VIn>::maybe_changed_after, IngredientImpl::data, Table::get, VerifyResult::changed_if"
 /// C01-O3/C03-O3: after writing field 0 in revision R, the change test of field 0 answers Changed for every
 /// revision < R (and Unchanged for R); the change test of field 1 answers exactly as before the write.
